@@ -205,6 +205,9 @@ def execute(plan: Dict[str, Any]) -> Dict[str, Any]:
                     if d:
                         raise Violation("reinitialisation", "original_modified", f"{d} {where}")
                     _check_init(m, w["orig"], where)
+                    d = tw.sharing_diff(w["orig"], m)
+                    if d:
+                        raise Violation("equals_recipe", "parameter_sharing_changed", f"{d} {where}")
                     w["mods"].append(m)
                 elif k == "fleet":
                     # many unit-scaled copies of one module class in one process, each called once
